@@ -86,6 +86,15 @@ reg('C09', 'exploration', 'runtime monitor: two-sided reference-model oracle for
     'forms minus the plain digest and canonical pool; each header entry must name events that suffice (SECT at an annotated Sec codon, W2F at an F).',
     TB, 'DESIGN.md section 6 C09')
 
+reg('C11', 'exploration', 'runtime monitor: reference-model oracle evaluated on EVERY position of generated annotations + sequential history monitor (on-disk vs parsed models) + round-trip oracle',
+    'GenomicAnnotation (GTF parser) and GenomicAnnotationOnDisk are driven on generated annotations; every coordinate conversion, sequence, ORF and Sec '
+    'position is compared with an independent object model at every position; on-disk pointers are exercised by access histories longer than the cache; '
+    'GtfIO.write -> parse must preserve the models.', TB, 'DESIGN.md section 6 C11')
+reg('C12', 'exploration', 'runtime monitor: sequential history monitor against a dictionary model (params -> definitional pool), with refusal, isolation and tamper checks',
+    'Histories of generateIndex / updateIndex (+/- --force) / load over five parameter sets are executed in-process on a generated reference; after every '
+    'operation the directory and the loaded data are compared with a dictionary model whose pools come from the definitional digest.', TB,
+    'DESIGN.md section 6 C12')
+
 NOT_YET = 'check not built yet in this session (runtime-monitoring design exists in DESIGN.md section 6); will be claimed when its monitor is committed'
 
 
